@@ -10,8 +10,9 @@ EXPLANATION = (
     "entry point; (R2/R6) every WriteConflict refusal is control-dependent on the strict overlap test "
     "commit_epoch(other) > start_epoch(ours) and on write-set membership; (R3) no refusal is reachable after the "
     "epoch/state publication; (R4) the transactions write guard is held from validation to publication; (R5) gc only "
-    "drops a committed transaction under commit_epoch <(=) min active start and never an active one. It does not "
-    "enumerate histories.")
+    "drops a committed transaction under commit_epoch <(=) the MINIMUM active start epoch and never an active one; (R7) "
+    "record_write inserts its entity into the write set of the transaction named by its argument while Active, commit "
+    "validates the committing transaction's own sets, TxInfo::new stores its arguments. It does not enumerate histories.")
 ASSUMPTIONS = [
     "operands are identified by provenance (TxInfo.start_epoch, TransactionManager.committed_epochs, TxInfo.write_set), not by name",
     "callee resolution and dominators are rustc's",
